@@ -22,6 +22,10 @@ Fact F_repo_files : repo_ignore_files = [".thailintignore"; ".thailint.yaml"].
 Proof. reflexivity. Qed.
 Fact F_repo_key : repo_ignore_key = "ignore".
 Proof. reflexivity. Qed.
+Fact F_parsers : file_parser_normalises = true /\ pyproject_parser_normalises = true.
+Proof. split; reflexivity. Qed.
+Lemma norm_for_eq k raw : norm_for k raw = normalize_top raw.
+Proof. unfold norm_for. destruct F_parsers as [-> ->]. now destruct k. Qed.
 Fact F_norm : norm_from = "-" /\ norm_to = "_".
 Proof. split; reflexivity. Qed.
 Fact F_errors : value_error_reraised = true /\ error_exit_code = 2 /\ exit_with_violations = 1 /\ exit_clean = 0.
@@ -173,7 +177,7 @@ Proof.
   assert (D : dry_merge q c = false).
   { unfold dry_merge. destruct (r_dry q c R) as [H|H]; [now rewrite H|].
     rewrite H. now rewrite !andb_false_r. }
-  rewrite D. now rewrite (selected_spec q c R).
+  rewrite D. rewrite (selected_spec q c R). destruct (spec_selected c); [reflexivity|]. now rewrite norm_for_eq.
 Qed.
 
 Lemma spec_selected_yaml c raw k :
